@@ -5,6 +5,7 @@ From Coq Require Import ZArith List Bool String Reals.
 From VQ Require Import Num Model.Vec Model.Core Proofs.CoreEMA Proofs.CoreMask Glue.CoreGlue Glue.Pin_p_mask.
 From VQ Require Import Model.Einops Glue.EinopsGlueBase Glue.EinopsGlueMask.
 From VQ Require Import Glue.LensGlue.
+From VQ Require Import Glue.Pin_fp_C09.
 Import ListNotations.
 Open Scope R_scope.
 
@@ -166,3 +167,8 @@ Theorem C09_src_lens_mask_is_prefix :
        (n <= m)%Z -> k_lens_to_mask.k_lens_to_mask m len = true -> k_lens_to_mask.k_lens_to_mask n len = true.
 Proof. exact (@LensGlue.lens_mask_is_prefix). Qed.
 Print Assumptions C09_src_lens_mask_is_prefix.
+
+Theorem C09_tie_source_footprint :
+  fp_C09.fp_C09 = pinned_fp_C09.
+Proof. exact (@Pin_fp_C09.pin_fp_C09). Qed.
+Print Assumptions C09_tie_source_footprint.
